@@ -94,13 +94,41 @@ def opJudge : Op := fun j => do
   let ill : Json := if allLegal then .null else jBool (illegalOk cfg s acts s')
   pure (jObj [("illegal_ok", ill), ("conserved", jBool (conservedB s s'))])
 
-/-- C10 certificates of a reset state ("solved": the board recorded by RandomWalkGenerator, optional) -/
+/-- C10 certificates of a reset state ("solved": the board recorded by RandomWalkGenerator, optional).
+When `cfg.generator = "uniform"`: the draw of `UniformRandomGenerator` is read off the state
+(`uniformDrawOf`), must be a possible result of `choice(replace=False)` (`uniform_draw_valid`) and the
+transliterated generator applied to it must reproduce the state (`uniform_transliteration`).
+When the state carries `walk` = {"init": [[start cell, first cell] per agent], "tape": [[cell per agent] per
+iteration], "solved": the solved grid returned by `generate_board`} (the draws of `RandomWalkGenerator` replayed by
+the adapter with the generator's own functions on the same key): the draws must be possible results of
+`jax.random.choice` and end exactly when the loop stops (`walk_draw_valid`) and the transliterated
+`generate_board` applied to them must reproduce both the solved grid and the state (`walk_transliteration`). -/
 def opInstance : Op := fun j => do
-  let cfg ← getCfg (← field j "cfg")
+  let cj ← field j "cfg"
+  let cfg ← getCfg cj
   let sj ← field j "state"
   let s ← getState cfg sj
   let base := [("fresh_distinct_cells", jBool (freshB cfg.n cfg.k s)),
                ("feasible", jBool (feasibleB cfg.n cfg.k s))]
+  let base := match ← fOpt cj "generator" getStr with
+    | some "uniform" =>
+      let cells := uniformDrawOf cfg.n s
+      base ++ [("uniform_draw_valid", jBool (validUniformDraw cfg.n cfg.k cells)),
+               ("uniform_transliteration", jBool (decide (uniformGenerate cfg.n cfg.k cells = s)))]
+    | _ => base
+  let base ← match ← fOpt sj "walk" pure with
+    | none => pure base
+    | some wj =>
+      let init ← getList (fun x => do
+        let l ← getList getInt x
+        match l with
+        | [a, b] => pure (a, b)
+        | _ => throw "walk.init: expected pairs") (← field wj "init")
+      let tape ← getList (getList getInt) (← field wj "tape")
+      let solved ← getList (getList getInt) (← field wj "solved")
+      let r := walkGenerate cfg.n cfg.k init tape
+      pure (base ++ [("walk_draw_valid", jBool (validWalkDraw cfg.n cfg.k init tape)),
+                     ("walk_transliteration", jBool (decide (r.1 = solved) && decide (r.2 = s)))])
   match ← fOpt sj "solved" (getList (getList getInt)) with
   | none => pure (jObj base)
   | some solved => pure (jObj (base ++ [("walk_board_solvable", jBool (solvedBoardB cfg.n cfg.k s solved))]))
